@@ -346,13 +346,17 @@ func genTravOpts(r *RNG, api uint64) travOpts {
 			o.dpad = pick(r, []uint64{^uint64(0), ^uint64(0) - 49, ^uint64(0) - 50}) // DataOffset wraps around
 		}
 	}
-	if api == 3 {
+	if api == 3 || api == 5 {
 		o.ncbW = uint64(r.Intn(4))
 		o.ncbD = uint64(r.Intn(4))
 	}
-	if api == 4 {
+	if api == 4 || api == 6 {
 		o.nilRoots = r.Bool()
 		o.plain = r.Bool()
+	}
+	if api >= 5 { // the first write's destination fails at this Write call (beyond the last: no fault)
+		o.fk = uint64(r.Intn(14))
+		o.fshort = r.Bool()
 	}
 	return o
 }
@@ -509,6 +513,17 @@ func fixedCases(c *Ctx) {
 			}
 		}
 	}
+	// write-fault histories over the diamond: the destination of a first SelectiveCar.Write / WriteCar
+	// fails at EVERY one of its Write calls in turn (error, and short write), then the fault-free run
+	for fk := uint64(0); fk <= 15; fk++ {
+		for _, short := range []bool{false, true} {
+			for api := uint64(5); api <= 6; api++ {
+				tc := &travCase{api: api, roots: []cid.Cid{diamond.c}, sel: all, opts: travOpts{dups: fk%2 == 0, ncbW: 1, ncbD: 2, fk: fk, fshort: short, plain: true}, store: dstore}
+				emitTrav(c, tc, func(Val) bool { return true })
+				c.Count("fixed:write-fault-history")
+			}
+		}
+	}
 	// paddings above the allocation limit, with and without an index
 	for _, hp := range [][3]uint64{{1<<48 + 1, 0, 0}, {^uint64(0) - 51, 7, 0}, {0, 1<<48 + 1, 0}, {7, ^uint64(0) - 99, 0x0400}, {0, 1 << 63, 0x300000}} {
 		for api := uint64(1); api <= 1; api++ { // NewSelectiveWriter only: its destination is a capped buffer
@@ -575,7 +590,7 @@ func init() {
 			smallScope(c)
 		}
 		nDag := 30 * c.Scale
-		apiNames := []string{"TraverseV1", "SelectiveWriter", "TraverseToFile", "SelectiveCar", "WriteCar"}
+		apiNames := []string{"TraverseV1", "SelectiveWriter", "TraverseToFile", "SelectiveCar", "WriteCar", "history:faulty-SelectiveCar.Write-then-SelectiveCar", "history:faulty-WriteCar-then-WriteCar"}
 		for a := 0; a < nDag; a++ {
 			r := c.R.Fork()
 			depth := 1 + r.Intn(5)
@@ -604,15 +619,18 @@ func init() {
 				j := r.Intn(i + 1)
 				store[i], store[j] = store[j], store[i]
 			}
-			for api := uint64(0); api <= 4; api++ {
+			for api := uint64(0); api <= 6; api++ {
 				for rep := 0; rep < 2; rep++ {
+					if api >= 5 && rep > 0 {
+						continue
+					}
 					tc := &travCase{api: api, opts: genTravOpts(r, api), store: store}
 					top := g.tops[0]
 					tc.sel = genSel(r, top, depth)
 					switch api {
 					case 0, 1, 2:
 						tc.roots = []cid.Cid{top.c}
-					case 3:
+					case 3, 5:
 						genDags(c, r, tc, g, depth)
 					default:
 						n := 1 + r.Intn(len(g.tops))
@@ -659,7 +677,7 @@ func init() {
 						d, rp, ok := traceStats(traces)
 						c.Count("api:" + apiNames[api])
 						selNames := []string{"all-recursive", "depth-limited", "field-path", "match-root", "union-of-paths", "field-path-only"}
-						if api == 3 {
+						if api == 3 || api == 5 {
 							for _, x := range tc.sels {
 								c.Count("sel:" + selNames[x.kind])
 							}
@@ -684,7 +702,7 @@ func init() {
 						if tc.opts.budget != 0 {
 							c.Count("opt:link-budget")
 						}
-						if api == 3 {
+						if api == 3 || api == 5 {
 							c.Count("callbacks:write=" + string(rune('0'+tc.opts.ncbW)))
 							c.Count("callbacks:dump=" + string(rune('0'+tc.opts.ncbD)))
 						}
